@@ -466,6 +466,9 @@ func indexIn(in ssa.Instruction) int {
 			if site := theWorld.ss().synSite[v]; site != nil {
 				return indexIn(site)
 			}
+			if o, ok := theWorld.ss().synOrigin[v].(ssa.Instruction); ok && o != in && o.Block() == in.Block() {
+				return indexIn(o)
+			}
 		}
 	}
 	return -1
